@@ -1,8 +1,8 @@
 package props
 
 import (
-	"math"
 	"fmt"
+	"math"
 	"sort"
 
 	"github.com/sahandsafizadeh/qeep/tensor"
